@@ -20,13 +20,51 @@ Inductive olist := Same | Rev | Lst (l : list entry).
 (** an observed entry: [I n] = the n-th built entry (from 0), [X e] = another one *)
 Inductive oent := I (n : N) | X (e : entry).
 
+(** byte strings in case files: a string literal in [hx_scope] is read as the
+    list of its characters (cheaper to parse than [string]); [hb] decodes hex *)
+Inductive hx := Hx (l : list Byte.byte).
+Definition hx_parse (l : list Byte.byte) : hx := Hx l.
+Definition hx_print (h : hx) : list Byte.byte := match h with Hx l => l end.
+Declare Scope hx_scope.
+Delimit Scope hx_scope with hx.
+String Notation hx hx_parse hx_print : hx_scope.
+
+Definition hexval_b (b : Byte.byte) : N :=
+  let n := b2n b in
+  if (48 <=? n) && (n <=? 57) then n - 48
+  else if (97 <=? n) && (n <=? 102) then n - 87
+  else if (65 <=? n) && (n <=? 70) then n - 55
+  else 0.
+Fixpoint unhex_b (l : list Byte.byte) : bytes :=
+  match l with
+  | a :: b :: l' => n2b (hexval_b a * 16 + hexval_b b) :: unhex_b l'
+  | _ => []
+  end.
+Definition hb (h : hx) : bytes := unhex_b (hx_print h).
+
+(** a lookup target key: the base key of built entry [i] (or an explicit base
+    key) with version [ver], i.e. kv.KeyWithTs(base, ver) *)
+Inductive tkey := TB (i : N) (ver : N) | TX (base : hx) (ver : N).
+
 (** a lookup target: Search(key, &maxvs), Seek(key) forward and reverse *)
-Record target := { tg_key : bytes; tg_maxvs : N }.
+Record target := { tg_spec : tkey; tg_maxvs : N }.
+
+Definition key_of (es : list entry) (k : tkey) : bytes :=
+  match k with
+  | TB i ver => match nth_error es (N.to_nat i) with
+                | Some e => key_with_ts (parse_key (e_key e)) ver
+                | None => []
+                end
+  | TX b ver => key_with_ts (hb b) ver
+  end.
 (** what the table answered: Search; Seek + up to 3 items with Next, forward; same, reverse *)
 Record tres := { r_search : option oent; r_fwd : list oent; r_rev : list oent }.
 
+(** block index entry: base key = key of built entry [i] / explicit; entries; BlockOffset.Len *)
+Inductive lay := L (i n len : N) | LX (base : hx) (n len : N).
+
 Record obs := {
-  o_layout : list (bytes * N * N);    (* per block: base key, entries, BlockOffset.Len *)
+  o_layout : list lay;
   o_bloom : bytes; o_maxver : N; o_count : N;
   o_fwd : olist; o_rev : olist;
   o_res : list tres }.
@@ -67,6 +105,12 @@ Definition resolve_opt (es : list entry) (o : option oent) : option (option entr
 Definition layout_of (t : table) : list (bytes * N * N) :=
   map (fun b => (b_base b, b_count b, b_len b)) (t_blocks t).
 
+Definition lay_resolve (es : list entry) (l : lay) : bytes * N * N :=
+  match l with
+  | L i n len => (match nth_error es (N.to_nat i) with Some e => e_key e | None => [] end, n, len)
+  | LX b n len => (hb b, n, len)
+  end.
+
 Definition layout_eqb (a b : list (bytes * N * N)) : bool :=
   list_eqb (fun x y => match x, y with (k1, n1, l1), (k2, n2, l2) => bytes_eqb k1 k2 && (n1 =? n2) && (l1 =? l2) end) a b.
 
@@ -103,17 +147,19 @@ Fixpoint forallb2 {A B} (f : A -> B -> bool) (a : list A) (b : list B) : bool :=
   end.
 
 Definition res_model_ok (t : table) (es : list entry) (tg : target) (r : tres) : bool :=
-  search_ok es (search t (tg_key tg) (tg_maxvs tg)) (r_search r)
-  && ents_ok es (take_items true t seek_limit (tseek true t (tg_key tg))) (r_fwd r)
-  && ents_ok es (take_items false t seek_limit (tseek false t (tg_key tg))) (r_rev r).
+  let k := key_of es (tg_spec tg) in
+  search_ok es (search t k (tg_maxvs tg)) (r_search r)
+  && ents_ok es (take_items true t seek_limit (tseek true t k)) (r_fwd r)
+  && ents_ok es (take_items false t seek_limit (tseek false t k)) (r_rev r).
 
 Definition res_spec_ok (es : list entry) (tg : target) (r : tres) : bool :=
-  search_ok es (spec_search es (tg_key tg) (tg_maxvs tg)) (r_search r)
-  && ents_ok es (firstn seek_limit (spec_from true es (tg_key tg))) (r_fwd r)
-  && ents_ok es (firstn seek_limit (spec_from false es (tg_key tg))) (r_rev r).
+  let k := key_of es (tg_spec tg) in
+  search_ok es (spec_search es k (tg_maxvs tg)) (r_search r)
+  && ents_ok es (firstn seek_limit (spec_from true es k)) (r_fwd r)
+  && ents_ok es (firstn seek_limit (spec_from false es k)) (r_rev r).
 
 Definition obs_model_ok (t : table) (es : list entry) (tgs : list target) (o : obs) : bool :=
-  layout_eqb (layout_of t) (o_layout o)
+  layout_eqb (layout_of t) (map (lay_resolve es) (o_layout o))
   && bytes_eqb (t_bloom t) (o_bloom o) && (t_maxver t =? o_maxver o) && (t_count t =? o_count o)
   && olist_ok (iterate true t) (resolve es (o_fwd o))
   && olist_ok (iterate false t) (resolve es (o_rev o))
@@ -141,14 +187,17 @@ Definition check (c : case) : verdict :=
   mk_verdict m v 0.
 
 (* helpers so that the harness prints compact terms *)
-Definition E (k : string) (meta exp : N) (v : string) : entry :=
-  {| e_key := unhex k; e_vs := {| vs_meta := meta; vs_exp := exp; vs_val := unhex v |} |}.
-Definition L (k : string) (n len : N) : bytes * N * N := (unhex k, n, len).
-Definition T (k : string) (mv : N) : target := {| tg_key := unhex k; tg_maxvs := mv |}.
+Definition E (k : hx) (meta exp : N) (v : hx) : entry :=
+  {| e_key := hb k; e_vs := {| vs_meta := meta; vs_exp := exp; vs_val := hb v |} |}.
+Arguments E k%hx meta%N exp%N v%hx.
+Arguments TX base%hx ver%N.
+Arguments LX base%hx n%N len%N.
+Definition T (k : tkey) (mv : N) : target := {| tg_spec := k; tg_maxvs := mv |}.
 Definition R (s : option oent) (f r : list oent) : tres := {| r_search := s; r_fwd := f; r_rev := r |}.
-Definition O (lay : list (bytes * N * N)) (bloom : string) (maxver count : N) (fwd rev : olist) (rs : list tres) : obs :=
-  {| o_layout := lay; o_bloom := unhex bloom; o_maxver := maxver; o_count := count;
+Definition O (lay : list lay) (bloom : hx) (maxver count : N) (fwd rev : olist) (rs : list tres) : obs :=
+  {| o_layout := lay; o_bloom := hb bloom; o_maxver := maxver; o_count := count;
      o_fwd := fwd; o_rev := rev; o_res := rs |}.
+Arguments O lay bloom%hx maxver%N count%N fwd rev rs.
 Definition Cs (bsz : N) (wb : bool) (bpk k : N) (es : list entry) (tgs : list target) (b : obs) (r : robs) : case :=
   {| c_bsz := bsz; c_with_bloom := wb; c_bpk := bpk; c_k := k; c_entries := es; c_targets := tgs;
      c_built := b; c_reopened := r |}.
